@@ -65,8 +65,6 @@ def extract(repo):
     # ---- channel.rs ------------------------------------------------------------------------
     stub = norm(body_after(channel_src, r"impl\s+ChannelBase\s+for\s+ChannelStub"))
     need(stub, r"if !\[0, 1\]\.contains\(&commitment_number\)", "ChannelStub::get_per_commitment_point: only 0 and 1", 1)
-    need(stub, r"fn get_per_commitment_secret_or_none\(&self, _commitment_number: u64\) -> Option<SecretKey> \{ None \}",
-         "ChannelStub::get_per_commitment_secret_or_none returns None", 1)
     chan = norm(body_after(channel_src, r"impl\s+ChannelBase\s+for\s+Channel\s*\{"))
     m = need(chan, r"if commitment_number > next_holder_commit_num \+ (\d+) \{", "Channel::get_per_commitment_point guard", 1)[0]
     point_slack = int(m.group(1))
@@ -77,10 +75,6 @@ def extract(repo):
         raise ExtractError("the two secret-release guards use different offsets: " + str(offs))
     release_offset = offs.pop()
     allchan = norm(channel_src)
-    m = need(allchan, r"self\.get_per_commitment_point\(commitment_number\.saturating_add\((\d+)\)\)\?; let maybe_old_secret = if commitment_number >= (\d+) \{ Some\(self\.get_per_commitment_secret\(commitment_number - (\d+)\)\?\) \} else \{ None \};",
-             "release_commitment_secret", 1)[0]
-    if not (m.group(1) == m.group(2) == m.group(3) == "1"):
-        raise ExtractError("release_commitment_secret: unexpected offsets " + str(m.groups()))
     need(allchan, r"if new_current_commitment_number != self\.enforcement_state\.next_holder_commit_num \{ return Ok\(self\.release_commitment_secret\(new_current_commitment_number\)\?\);",
          "revoke_previous_holder_commitment: non-advancing branch", 1)
     need(allchan, r"if self\.enforcement_state\.channel_closed \{ policy_err!\( validator, \"policy-revoke-not-closed\"",
@@ -92,22 +86,18 @@ def extract(repo):
     need(allchan, r"&counterparty_htlc_sigs\[ndx\]", "check_holder_tx_signatures: signature by index", 1)
 
     # ---- validator.rs ----------------------------------------------------------------------
+    # Round 8: the progression / selector / retry / closed / point-comparison shapes of validator.rs and simple_validator.rs, the
+    # stub's secret functions and release_commitment_secret are no longer pinned by regular expressions here: their BODIES are
+    # translated by rs2lean on every run and proved equal to the model (Props/C01Fn.lean, C02Fn.lean, C03Fn.lean), which is
+    # stronger (semantic) and does not raise on a harmless rewrite.  What stays pinned: the arms of handler.rs and the glue of
+    # channel.rs that are not translated, and the expressions whose offsets are exported as facts below.
     v = norm(validator_src)
-    need(v, r"let current = estate\.next_holder_commit_num; if num != current && num != current \+ 1 \{",
-         "Validator::set_next_holder_commit_num progression", 1)
-    need(v, r"if commitment_number \+ 1 != estate\.next_holder_commit_num \{", "get_current_holder_commitment_info", 1)
     m = need(v, r"let delta = if num == 1 \{ (\d+) \} else \{ (\d+) \}; if num < estate\.next_counterparty_revoke_num \+ delta \{",
              "set_next_counterparty_commit_num window", 1)[0]
     cp_delta_first, cp_delta = int(m.group(1)), int(m.group(2))
-    need(v, r"let current = estate\.next_counterparty_commit_num; if num != current && num != current \+ 1 \{",
-         "set_next_counterparty_commit_num progression", 1)
     m1 = need(v, r"if num \+ (\d+) < estate\.next_counterparty_commit_num \{", "set_next_counterparty_revoke_num lower window", 1)[0]
     m2 = need(v, r"if num \+ (\d+) > estate\.next_counterparty_commit_num \{", "set_next_counterparty_revoke_num upper window", 1)[0]
     rev_low, rev_high = int(m1.group(1)), int(m2.group(1))
-    need(v, r"let current = estate\.next_counterparty_revoke_num; if num != current && num != current \+ 1 \{",
-         "set_next_counterparty_revoke_num progression", 1)
-    need(v, r"if num \+ 1 == self\.next_counterparty_commit_num \{ self\.current_counterparty_point \} else if num \+ 2 == self\.next_counterparty_commit_num \{ self\.previous_counterparty_point \} else \{ None \}",
-         "get_previous_counterparty_point", 1)
     m = need(v, r"fn place_secret\(idx: u64\) -> u8 \{ for i in 0\.\.(\d+) \{ if idx & \(1 << i\) == \(1 << i\) \{ return i; \} \} (\d+) \}", "place_secret", 1)[0]
     if m.group(1) != m.group(2):
         raise ExtractError("place_secret: loop bound and default differ")
@@ -121,14 +111,8 @@ def extract(repo):
     sv = norm(simple_src)
     m = need(sv, r"if commit_num > estate\.next_counterparty_revoke_num \+ (\d+) \{", "validate_counterparty_commitment_tx window", 1)[0]
     cp_sign_ahead = int(m.group(1))
-    need(sv, r"if commit_num \+ 1 == estate\.next_counterparty_commit_num \{", "counterparty retry detection", 1)
-    need(sv, r"if commit_num \+ 1 == estate\.next_holder_commit_num \{", "holder retry detection", 1)
     m = need(sv, r"if commit_num \+ (\d+) <= estate\.next_holder_commit_num \{", "holder not-revoked check", 1)[0]
     holder_revoked = int(m.group(1))
-    need(sv, r"if commit_num == estate\.next_holder_commit_num && estate\.channel_closed \{", "no new holder state once closed", 1)
-    need(sv, r"if revoke_num != state\.next_counterparty_revoke_num && revoke_num \+ 1 != state\.next_counterparty_revoke_num \{",
-         "validate_counterparty_revocation: expected next or retry", 1)
-    need(sv, r"Some\(prev\) => if supplied_commit_point != prev \{", "validate_counterparty_revocation: point comparison", 1)
 
     facts = {
         "INITIAL_COMMITMENT_NUMBER": initial, "PROTOCOL_VERSION_REVOKE": v_revoke, "PROTOCOL_VERSION_NO_SECRET": v_nosecret,
@@ -143,6 +127,6 @@ def extract(repo):
     lean += "end VlsModel.Gen.Enforcement\n"
     obligations = ["Gen.Enforcement: the model's guard offsets equal the extracted ones (theorem C01_gen_ties); "
                    "INITIAL / PROTOCOL_VERSION_* / 2^48 are taken from the generated file by Model/Enforcement.lean and Model/Secrets.lean; "
-                   "22 guard expressions pinned by shape (translator fails closed)"]
+                   "20 guard expressions pinned by shape (translator fails closed); the other guards of these files are generated bodies tied by Props/C0xFn.lean"]
     info = {p: {"facts": {"enforcement": facts}, "obligations": obligations} for p in ("C01", "C02", "C03")}
     return {"Enforcement.lean": lean}, info
